@@ -85,6 +85,11 @@ CHECKS = {
          "[Memory(2-3), Disk] and [Memory(1-2), Memory(8), Disk], all eviction policies and promotion strategies, hooks none/MD5/NGDP; all sequences of <= 4 ops (5 thorough) over a 10-op alphabet on one hot key are enumerated. Hard clauses: a served value was put for that key and not removed; after remove/clear/validation drop every layer misses; a value held only by a slower layer is found; faster layers first; validated reads only return bytes hashing to the key and drop corrupted entries everywhere; batch = element-wise single; plus the latest-value clause.",
          "Trusted: the layer model (first layer uncertain once the model counts it full); the reference MD5. A hang is reported only if two runs (60 s, then 180 s) stop in the same call with the thread asleep; statement-silent behaviour (contains==true, get_from_layer staleness, Err after a delete fault) is not judged.",
          "DESIGN.md §3 C12"),
+ "C07": ("enum+pbt", "fault_enumeration",
+         "fault enumeration: every single-bit flip (exhaustive for regions <= 8 KiB, sampled for fixtures), byte substitutions, deletions and insertions inside the protected region of valid artifacts must make the load fail; proptest put/corrupt/get sequences on the validating caches; acceptances are re-judged with reference MD5/lookup3 so true guard collisions are counted, not reported",
+         "Encoding pages and stored page MD5s (builder file exhaustively, CDN fixtures sampled), archive index footer [8..28) (parse and ChunkedArchiveIndex::open), every byte of .lru checkpoint files, update entries / update section / .idx loader, local headers for every base offset mod 4, real V1 responses produced by the server code (every byte before the Checksum line), and ContentAddressedCache / MultiLayerCacheImpl sequences with corruption of the backing store: a validating read never returns bytes whose MD5 differs from the key and a detected corruption removes the entry everywhere.",
+         "Trusted: reference MD5 and lookup3; a case whose un-mutated artifact is rejected is vacuous and reported as infrastructure trouble. A raw status byte that aliases to the same entry is counted, not reported. toc_hash is documented as unchecked and excluded.",
+         "DESIGN.md §3 C07"),
 }
 
 NOT_YET = "check not built yet in this session (work in progress; see DESIGN.md §3 for the planned generator and oracle)"
